@@ -175,7 +175,8 @@ VOCAB = [
     (STR("ab"), '"ab"', ["atom_chars(ab, {V})"]),
     (LST([I(1), I(2)]), "[1,2]", ["{V} = [1|T0], T0 = [2]"]),
     (LST([A("a")], V()), "[a|_]", []),
-    (LST([V()], V()), "[_|_]", ["length({V}, 1)"]),
+    (LST([V()], V()), "[_|_]", ["copy_term([_|_], {V})"]),
+    (LST([V()]), "[_]", ["length({V}, 1)"]),
     (S("f", I(1)), "f(1)", ["{V} =.. [f,1]"]),
     (S("f", A("x")), "f(x)", ["copy_term(f(x), {V})"]),
     (S("f", V()), "f(_)", ["functor({V}, f, 1)"]),
@@ -264,7 +265,7 @@ def gen_case(rng, n, tier):
     c.arity = 3 if rng.random() < 0.3 else 2
     pool = make_pool(rng, False)
     spool = [e for e in pool if e[1] is not None]
-    impl, steps = [], []   # steps: list of ('clauses'| 'op' | 'obs', ...)
+    impl = ["Q\t%s_u\t1\tuse_module(library(lists))." % c.name]
     clauses = []           # live: list of (id, [terms])
     heads_tok, ops_tok = [], []
     nid = 0
@@ -536,10 +537,21 @@ def run(ctx):
     for d in corpus:
         run_list.append({"impl": d["impl"], "model": d["model"]})
     impl, model = diff.run_cases(run_list)
+    # a loaded machine can make the 10 s watchdog fire: such cases are re-run serially once and, if
+    # still incomplete, counted as inconclusive (never reported)
+    inconclusive = set()
+    redo = [r for r in run_list if any(_incomplete(impl.get(core.line_id(l))) for l in r["impl"])]
+    stats["rerun_serially"] = len(redo)
+    for r in redo:
+        again, _ = diff.run_cases([{"impl": r["impl"]}], parallel=False)
+        impl.update(again)
+        if any(_incomplete(again.get(core.line_id(l))) for l in r["impl"]):
+            inconclusive.update(core.line_id(l) for l in r["impl"])
+    stats["inconclusive_lines"] = len(inconclusive)
     for c in cases:
         for o in c.obs:
             obs.append(case_dict(c, o))
-    obs = list(corpus) + obs
+    obs = [d for d in list(corpus) + obs if d["qid"] not in inconclusive]
     judge(obs, impl, model, findings, stats)
     distinct = set()
     nstat = ndyn = 0
@@ -571,9 +583,15 @@ def run(ctx):
         "dynamic_history_shapes": hist_shapes,
         "clauses_tried_by_model": stats["tried"], "clauses_matching": stats["matching"],
         "calls_where_index_skipped_some_clause": stats["index_discriminated"],
+        "cases_rerun_serially": stats.get("rerun_serially", 0),
+        "inconclusive_lines": stats.get("inconclusive_lines", 0),
         "exhaustive": False,
         "findings": findings,
     }
+
+
+def _incomplete(r):
+    return r is None or r.startswith("timeout") or r.startswith("abort(") or r.startswith("skipped(")
 
 
 def _tt(t):
